@@ -119,7 +119,7 @@ def run(tier):
             ("rt-d2f3", "ZipImpl", "SpecRTI", consts(NNames=2, Contents=[0, 1, 2], MaxDepth=2, MaxFiles=3), rt_inv_i, "ViewRTI", ["plain", "odd"]),
             ("rt-d3f2", "ZipImpl", "SpecRTI", consts(NNames=2, Contents=[0, 1], MaxDepth=3, MaxFiles=2), rt_inv_i, "ViewRTI", ["plain", "stale"]),
             ("rt-dirs", "ZipImpl", "SpecRTI", consts(NNames=2, Contents=[0, 1], MaxDepth=2, MaxFiles=2, MaxDirs=1), rt_inv_i, "ViewRTI", ["odd"]),
-            ("ex-seg4", "ZipImpl", "SpecExI", consts(Segs=SEG4, MaxLen=3, MaxEntries=3, Slashes=[False, True]), ex_inv_i, "ViewExI", ["plain"]),
+            ("ex-seg4", "ZipImpl", "SpecExI", consts(Segs=SEG4, MaxLen=3, MaxEntries=3, Slashes=[False, True]), ex_inv_i, "ViewExI", ["plain", "bslash"]),
             ("ex-dest", "ZipImpl", "SpecExI", consts(Segs=SEGD, MaxLen=3, MaxEntries=2, Slashes=[False, True], DirFlags=[False, True],
                                                      DestExists=[False, True]), ex_inv_i, "ViewExI", ["odd"]),
             ("ex-all2", "ZipImpl", "SpecExI", consts(Segs=SEG4, MaxLen=3, MaxEntries=2, Slashes=[False, True]), ex_inv_i, "ViewExAllI", []),
@@ -130,7 +130,7 @@ def run(tier):
             ("rt-d3f3", "ZipImpl", "SpecRTI", consts(NNames=2, Contents=[0, 1], MaxDepth=3, MaxFiles=3), rt_inv_i, "ViewRTI", ["plain", "odd", "stale"]),
             ("rt-n3d2", "ZipImpl", "SpecRTI", consts(NNames=3, Contents=[0, 1, 2], MaxDepth=2, MaxFiles=3), rt_inv_i, "ViewRTI", ["odd"]),
             ("ex-seg4", "ZipImpl", "SpecExI", consts(Segs=SEG4, MaxLen=3, MaxEntries=3, Slashes=[False, True], DestExists=[False, True]),
-             ex_inv_i, "ViewExI", ["plain", "odd"]),
+             ex_inv_i, "ViewExI", ["plain", "odd", "bslash"]),
             ("ex-seg6", "ZipImpl", "SpecExI", consts(Segs=SEG6, MaxLen=3, MaxEntries=2, Slashes=[False, True], DirFlags=[False, True]),
              ex_inv_i, "ViewExI", ["plain", "odd"]),
             ("ex-all3", "ZipImpl", "SpecExI", consts(Segs=SEG4, MaxLen=3, MaxEntries=3, Slashes=[False, True]), ex_inv_i, "ViewExAllI", []),
